@@ -25,6 +25,7 @@ type srcInfo struct {
 	Mult  int64  // product of constant factors between source and sink
 	Const constant.Value
 	At    ssa.Instruction
+	Param *ssa.Parameter
 }
 
 func (s srcInfo) String() string {
@@ -44,6 +45,64 @@ type slicer struct {
 	tokens  map[int64]string // token constant value -> name
 	guards  []tokenGuard
 	valueTk map[string]bool
+	depth   int // helper nesting
+}
+
+// helperResult: v is the (idx-th) result of a static call to a module function with a body.
+func helperResult(v ssa.Value) (*ssa.Call, int, bool) {
+	idx := 0
+	if ex, ok := v.(*ssa.Extract); ok {
+		idx = ex.Index
+		v = ex.Tuple
+	}
+	call, ok := v.(*ssa.Call)
+	if !ok {
+		return nil, 0, false
+	}
+	callee := call.Call.StaticCallee()
+	if callee == nil || callee.Blocks == nil || !ModuleFunc(callee) {
+		return nil, 0, false
+	}
+	return call, idx, true
+}
+
+// structFieldSources: sources of field #field of the struct value v inside s.fn
+// (a load of a local struct variable: the stores into that field and whole-struct stores).
+func (s *slicer) structFieldSources(v ssa.Value, field int) []srcInfo {
+	switch x := v.(type) {
+	case *ssa.UnOp:
+		if al, ok := x.X.(*ssa.Alloc); ok && x.Op == token.MUL {
+			var out []srcInfo
+			for _, r := range *al.Referrers() {
+				switch y := r.(type) {
+				case *ssa.FieldAddr:
+					if y.Field != field {
+						continue
+					}
+					for _, rr := range *y.Referrers() {
+						if st, ok := rr.(*ssa.Store); ok && st.Addr == y {
+							out = append(out, s.sourcesAt(st.Val, st.Block())...)
+						}
+					}
+				case *ssa.Store:
+					if y.Addr == al {
+						out = append(out, s.structFieldSources(y.Val, field)...)
+					}
+				}
+			}
+			return out
+		}
+	case *ssa.Phi:
+		var out []srcInfo
+		for _, e := range x.Edges {
+			out = append(out, s.structFieldSources(e, field)...)
+		}
+		return out
+	}
+	if st, ok := v.Type().Underlying().(*types.Struct); ok && field < st.NumFields() {
+		return []srcInfo{{Kind: "field", Name: st.Field(field).Name(), Mult: 1}}
+	}
+	return nil
 }
 
 type tokenGuard struct {
@@ -110,7 +169,11 @@ func (s *slicer) guardOf(b *ssa.BasicBlock) []string {
 
 var parseFuncs = map[string]bool{"strconv.Atoi": true, "strconv.ParseBool": true, "strconv.ParseFloat": true, "strconv.ParseInt": true, "strconv.ParseUint": true}
 
-func (s *slicer) sources(v ssa.Value) []srcInfo {
+func (s *slicer) sources(v ssa.Value) []srcInfo { return s.sourcesAt(v, nil) }
+
+// sourcesAt: like sources, for a value that is assigned in block at (the case that controls the
+// assignment counts as the value's guard).
+func (s *slicer) sourcesAt(v ssa.Value, at *ssa.BasicBlock) []srcInfo {
 	var out []srcInfo
 	type key struct {
 		v   ssa.Value
@@ -127,6 +190,38 @@ func (s *slicer) sources(v ssa.Value) []srcInfo {
 			ctx = ctxStack[len(ctxStack)-1]
 		}
 		recCtx(v, mult, depth, ctx)
+	}
+	// descend: field #field of a struct returned by a module helper — continue inside the helper
+	descend := func(v ssa.Value, field int, mult int64, depth int) bool {
+		call, idx, ok := helperResult(v)
+		if !ok || s.depth >= 3 {
+			return false
+		}
+		callee := call.Call.StaticCallee()
+		sub := newSlicer(s.p, callee)
+		sub.depth = s.depth + 1
+		n := 0
+		allInstrs(callee, func(in ssa.Instruction) {
+			ret, ok := in.(*ssa.Return)
+			if !ok || idx >= len(ret.Results) {
+				return
+			}
+			for _, si := range sub.structFieldSources(ret.Results[idx], field) {
+				n++
+				if si.Kind == "param" && si.Param != nil {
+					// bind to the caller's argument
+					for i, p := range callee.Params {
+						if p == si.Param && i < len(call.Call.Args) {
+							rec(call.Call.Args[i], mult*si.Mult, depth+1)
+						}
+					}
+					continue
+				}
+				si.Mult *= mult
+				add(si)
+			}
+		})
+		return n > 0
 	}
 	recCtx = func(v ssa.Value, mult int64, depth int, ctx *ssa.BasicBlock) {
 		if v == nil || depth > 60 || seen[key{v, mult, ctx}] {
@@ -153,7 +248,7 @@ func (s *slicer) sources(v ssa.Value) []srcInfo {
 		case *ssa.Const:
 			add(srcInfo{Kind: "const", Const: x.Value, Mult: mult})
 		case *ssa.Parameter:
-			add(srcInfo{Kind: "param", Name: x.Name(), Mult: mult})
+			add(srcInfo{Kind: "param", Name: x.Name(), Mult: mult, Param: x})
 		case *ssa.Phi:
 			for i, e := range x.Edges {
 				ctxStack = append(ctxStack, x.Block().Preds[i])
@@ -198,6 +293,13 @@ func (s *slicer) sources(v ssa.Value) []srcInfo {
 					// parse of something else: follow the argument
 					rec(call.Call.Args[0], mult, depth+1)
 					return
+				}
+				// a module helper that reads the option's value from the scanner (readOptWord(s)):
+				// its result is a token value; the option it belongs to is the case the call sits in
+				if hc, idx, ok := helperResult(x); ok && s.depth < 3 && returnsTokenValue(s, hc.Call.StaticCallee(), idx) {
+					if tokenSrc() {
+						return
+					}
 				}
 				add(srcInfo{Kind: "call", Name: fmt.Sprintf("%s#%d", short(n), x.Index), Mult: mult, At: call})
 				return
@@ -248,6 +350,10 @@ func (s *slicer) sources(v ssa.Value) []srcInfo {
 						// plus whole-struct initialisation
 						for _, r := range *al.Referrers() {
 							if st, ok := r.(*ssa.Store); ok && st.Addr == al {
+								if descend(st.Val, a.Field, mult, depth) {
+									n++
+									continue
+								}
 								name := f.Name()
 								if _, fromCall := st.Val.(*ssa.Extract); fromCall {
 									name += "@init" // initial value produced by a constructor call
@@ -279,12 +385,18 @@ func (s *slicer) sources(v ssa.Value) []srcInfo {
 			add(srcInfo{Kind: "other", Name: "unop " + x.Op.String(), Mult: mult})
 		case *ssa.Field:
 			st := x.X.Type().Underlying().(*types.Struct)
+			if descend(x.X, x.Field, mult, depth) {
+				return
+			}
 			add(srcInfo{Kind: "field", Name: st.Field(x.Field).Name(), Mult: mult, At: x})
 		case *ssa.Slice:
 			rec(x.X, mult, depth+1)
 		default:
 			add(srcInfo{Kind: "other", Name: fmt.Sprintf("%T", v), Mult: mult})
 		}
+	}
+	if at != nil {
+		ctxStack = append(ctxStack, at)
 	}
 	rec(v, 1, 0)
 	return out
@@ -468,4 +580,29 @@ func readMarkdownTable(file, heading, firstHeader string) ([]string, error) {
 		return nil, fmt.Errorf("no table with header %q under heading %q in %s", firstHeader, heading, file)
 	}
 	return out, nil
+}
+
+// returnsTokenValue: result #idx of helper g is, on every return, a constant or the Value of a
+// scanner token read inside g.
+func returnsTokenValue(s *slicer, g *ssa.Function, idx int) bool {
+	sub := newSlicer(s.p, g)
+	sub.depth = s.depth + 1
+	nTok := 0
+	ok := true
+	allInstrs(g, func(in ssa.Instruction) {
+		ret, isRet := in.(*ssa.Return)
+		if !isRet || idx >= len(ret.Results) {
+			return
+		}
+		for _, si := range sub.sources(ret.Results[idx]) {
+			switch {
+			case si.Kind == "const":
+			case si.Kind == "field" && si.Name == "Value":
+				nTok++
+			default:
+				ok = false
+			}
+		}
+	})
+	return ok && nTok > 0
 }
